@@ -46,6 +46,7 @@ inductive ErrKind where
   | keyError          -- InputExp: `put` without `value`
   | unknownEvent      -- EdzedUnknownEvent escaping from an entry action
   | assertion         -- non-Goto event for an uninitialised FSM
+  | invalidState      -- EdzedInvalidState: get_state() of an uninitialised FSM
   | fuel              -- model only: `advance` ran out of fuel (never for reachable states)
   deriving DecidableEq, Repr, Inhabited
 
@@ -154,12 +155,19 @@ def live (s : St) : List Handle := s.timers.filter (fun h => !h.cancelled)
 
 /-! ### timers -/
 
+/-- the handle with this id, if it is in the loop's heap and was not cancelled -/
+def liveHandle (s : St) (id : Nat) : Option Handle :=
+  s.timers.find? (fun h => h.id == id && !h.cancelled)
+
+/-- `not timer.cancelled()` as far as this FSM can tell (a handle that has left the heap counts as gone) -/
+def handleLive (s : St) (id : Nat) : Bool := (liveHandle s id).isSome
+
 /-- `_stop_timer`: cancel the active handle (only that one) and forget it -/
 def stopTimer (s : St) : St :=
   match s.active with
   | none => s
   | some id =>
-    let hit := s.timers.any (fun h => h.id == id && !h.cancelled)
+    let hit := handleLive s id
     let s' : St := { s with
       active := none
       timers := s.timers.map (fun h => if h.id == id then { h with cancelled := true } else h) }
@@ -474,10 +482,7 @@ def getState (s : St) : Option (String × Option Nat) :=
     let timer : Option Nat :=
       match s.active with
       | none => none
-      | some id =>
-        match s.timers.find? (fun h => h.id == id) with
-        | some h => if h.cancelled then none else some h.when
-        | none => none
+      | some id => (liveHandle s id).map (·.when)
     some (q, timer)
 
 /-! ### the library blocks, over the tables generated from the source -/
